@@ -19,6 +19,7 @@ Sites
   C  Couplings.compute with QED order 0: em_running True vs False, expanded and exact method
   D  OperatorMatrixElement.__init__ / quad_ker / quad_ker_ome / build_ome: inversion method for forward matching
   E  Operator.compute_aem_list + Operator.quad_ker with QED order 0: iteration count (shape of an unused array)
+  F  runner.parts._evolve_configs / _matching_configs: every card field lands under its own config key, untouched
 """
 import hashlib
 import importlib
@@ -620,6 +621,78 @@ def case_operator(log, quick):
 
 
 # ---------------------------------------------------------------------------
+# F  cards -> config dictionaries: every setting lands under its own key (tokens travel untouched)
+# ---------------------------------------------------------------------------
+PLUMBING = {"order": ("t", "order"), "method": None, "xif2": None, "ev_op_iterations": ("o.configs", "ev_op_iterations"), "ev_op_max_order": ("o.configs", "ev_op_max_order"),
+            "polarized": ("o.configs", "polarized"), "time_like": ("o.configs", "time_like"), "debug_skip_singlet": ("o.debug", "skip_singlet"),
+            "debug_skip_non_singlet": ("o.debug", "skip_non_singlet"), "n_integration_cores": ("o.configs", "n_integration_cores"), "ModSV": ("o.configs", "scvar_method"),
+            "n3lo_ad_variation": ("t", "n3lo_ad_variation"), "use_fhmruvv": ("t", "use_fhmruvv"), "matching_order": ("t", "matching_order"),
+            "backward_inversion": ("o.configs", "inversion_method")}
+
+
+def _fake_eko(xif):
+    import types
+    from eko.io.types import EvolutionMethod
+
+    t = types.SimpleNamespace(order=Token("order"), xif=xif, n3lo_ad_variation=Token("n3lo_ad_variation"), use_fhmruvv=Token("use_fhmruvv"), matching_order=Token("matching_order"))
+    cfgs = types.SimpleNamespace(evolution_method=EvolutionMethod.TRUNCATED, ev_op_iterations=Token("ev_op_iterations"), ev_op_max_order=Token("ev_op_max_order"),
+                                 polarized=Token("polarized"), time_like=Token("time_like"), n_integration_cores=Token("n_integration_cores"),
+                                 scvar_method=Token("scvar_method"), inversion_method=Token("inversion_method"))
+    o = types.SimpleNamespace(configs=cfgs, debug=types.SimpleNamespace(skip_singlet=Token("skip_singlet"), skip_non_singlet=Token("skip_non_singlet")))
+    return types.SimpleNamespace(theory_card=t, operator_card=o), {"t": t, "o.configs": cfgs, "o.debug": o.debug}
+
+
+def case_plumbing(log):
+    parts = importlib.import_module("eko.runner.parts")
+    log.encode(parts._evolve_configs, parts._matching_configs)
+    decide = Decider(log)
+
+    def run():
+        xif = SR.var("xif")
+        assume(xif, ">0")
+        eko, src = _fake_eko(xif)
+        for fn, keys in ((parts._evolve_configs, [k for k in PLUMBING if k != "backward_inversion"]), (parts._matching_configs, list(PLUMBING))):
+            out = _guard(lambda: fn(eko))
+            rp = (MOD, "replay_plumbing", {"fn": fn.__name__})
+            key = "parts.%s" % fn.__name__
+            if out[0] != "value":
+                decide(prove_formula(z3.BoolVal(False), "%s copies the card fields without using them (%s)" % (fn.__name__, out[1])), key, rp)
+                continue
+            d = out[1]
+            wrong = [k for k in keys if PLUMBING[k] is not None and d.get(k) is not getattr(src[PLUMBING[k][0]], PLUMBING[k][1])]
+            extra = sorted(set(d) - set(keys))
+            ok = not wrong and not extra and d.get("method") == "truncated"
+            decide(prove_formula(z3.BoolVal(ok), "%s: every setting lands under its own key%s" % (fn.__name__, "" if ok else " -- misplaced %r, unexpected keys %r" % (wrong, extra))), key, rp)
+            decide(prove_zero(d["xif2"] - xif * xif, "%s: xif2 == xif^2" % fn.__name__), key, rp)
+        log.twin("domain")
+
+    _r, pm = explore(run, max_paths=4)
+    log.path_stats(pm)
+
+
+def replay_plumbing(point, fn):
+    import types
+    from eko.io.types import EvolutionMethod, InversionMethod
+
+    parts = importlib.import_module("eko.runner.parts")
+    vals = dict(order=(3, 0), n3lo_ad_variation=(1, 2, 3, 4, 5, 6, 7), use_fhmruvv="FH", matching_order=(2, 0), ev_op_iterations=17, ev_op_max_order=(9, 0), polarized="POL",
+                time_like="TL", n_integration_cores=5, scvar_method="SV", inversion_method=InversionMethod.EXACT, skip_singlet="SS", skip_non_singlet="SNS")
+    t = types.SimpleNamespace(order=vals["order"], xif=1.5, n3lo_ad_variation=vals["n3lo_ad_variation"], use_fhmruvv=vals["use_fhmruvv"], matching_order=vals["matching_order"])
+    cfgs = types.SimpleNamespace(evolution_method=EvolutionMethod.TRUNCATED, **{k: vals[k] for k in ("ev_op_iterations", "ev_op_max_order", "polarized", "time_like", "n_integration_cores", "scvar_method", "inversion_method")})
+    o = types.SimpleNamespace(configs=cfgs, debug=types.SimpleNamespace(skip_singlet="SS", skip_non_singlet="SNS"))
+    d = getattr(parts, fn)(types.SimpleNamespace(theory_card=t, operator_card=o))
+    want = {"order": vals["order"], "method": "truncated", "xif2": 2.25, "ev_op_iterations": 17, "ev_op_max_order": (9, 0), "polarized": "POL", "time_like": "TL",
+            "debug_skip_singlet": "SS", "debug_skip_non_singlet": "SNS", "n_integration_cores": 5, "ModSV": "SV", "n3lo_ad_variation": vals["n3lo_ad_variation"],
+            "use_fhmruvv": "FH", "matching_order": (2, 0)}
+    if fn == "_matching_configs":
+        want["backward_inversion"] = InversionMethod.EXACT
+    if d != want:
+        diff = {k: (d.get(k), want.get(k)) for k in set(d) | set(want) if d.get(k) != want.get(k)}
+        return {"detail": "real runner.parts.%s: config differs from the card fields (got, expected): %r" % (fn, diff)}
+    return None
+
+
+# ---------------------------------------------------------------------------
 # replays: the REAL code twice, results must be bitwise identical
 # ---------------------------------------------------------------------------
 def _real_ad(cfg, label, it, mo, var, fhm, em):
@@ -760,7 +833,7 @@ def main():
     import random
 
     chk = H.Check("C55")
-    for n in ("eko.evolution_operator.quad_ker", "eko.evolution_operator.operator_matrix_element", "eko.couplings",
+    for n in ("eko.evolution_operator.quad_ker", "eko.evolution_operator.operator_matrix_element", "eko.couplings", "eko.runner.parts",
               "ekore.anomalous_dimensions.unpolarized.space_like", "ekore.anomalous_dimensions.unpolarized.time_like", "ekore.anomalous_dimensions.polarized.space_like",
               "ekore.operator_matrix_elements.unpolarized.space_like", "ekore.operator_matrix_elements.unpolarized.time_like",
               "ekore.operator_matrix_elements.polarized.space_like"):
@@ -787,7 +860,7 @@ def main():
         "site D: OperatorMatrixElement built for forward matching, matching orders 1-3, three sv modes; site E: Operator built for QCD-only configurations with concrete setting pairs",
     ]
     chk.out_of_claim = ["bitwise identity of complete solves (integration, interpolation, archive): only the Mellin-space integrand and the couplings are compared, over the reals",
-                        "cards -> config dictionaries (runner/parts._evolve_configs/_matching_configs copy fields verbatim; needs an EKO object)",
+                        "reading the cards from files / the EKO object (site F runs runner.parts._evolve_configs/_matching_configs on a stand-in object carrying opaque tokens)",
                         "Couplings.a / cache (the cache key does not contain the flag; the flag is constant per object)",
                         "N3LO itself: how the variation tuple enters the N3LO anomalous dimensions"]
     chk.stubs = ["kernel bodies below the dispatchers, the QED iterated solutions and the per-order ekore functions: uninterpreted functions of their arguments",
@@ -800,6 +873,7 @@ def main():
     chk.case("couplings", case_couplings, nfs=(3, 4, 5, 6) if thorough else (4, 5))
     chk.case("matching", case_matching, quick=quick)
     chk.case("operator", case_operator, quick=quick)
+    chk.case("plumbing", case_plumbing)
     return chk.run()
 
 
